@@ -70,6 +70,26 @@ def dec_chunks(tok):
     return [] if tok == "-" else [unhx(c) for c in tok.split("/")]
 
 
+class NoSeek(__import__("io").RawIOBase):
+    """a readable binary stream without seek/tell/fileno, like a pipe"""
+
+    def __init__(self, data):
+        super().__init__()
+        self._d, self._p = data, 0
+
+    def readable(self):
+        return True
+
+    def seekable(self):
+        return False
+
+    def readinto(self, b):
+        chunk = self._d[self._p:self._p + len(b)]
+        b[:len(chunk)] = chunk
+        self._p += len(chunk)
+        return len(chunk)
+
+
 def enc_resp(res, chunks=None):
     """encode the state of a real response object at hand-back time"""
     from poorwsgi.response import NoContentResponse, Declined, Response
@@ -511,6 +531,8 @@ def pool():
         f_resp(lambda: JSONResponse([])),
         f_resp(lambda: FileObjResponse(_io.BytesIO(b"fileobj"), headers={"X-F": "1"}), [b"fileobj"]),
         f_resp(lambda: FileResponse(fpath), [b"file"]),
+        # a stream that cannot seek (a pipe, a socket): sent from where it stands, no length known
+        f_resp(lambda: FileObjResponse(_io.BufferedReader(NoSeek(b"piped")), headers={"X-P": "1"}), [b"piped"]),
         f_resp(lambda: GeneratorResponse(iter([b"ge", b"n"]), content_length=3), [b"ge", b"n"]),
         f_resp(lambda: GeneratorResponse(iter([b"gen0"])), [b"gen0"]),
         f_resp(lambda: StrGeneratorResponse(iter(["sž", "t"])), ["sž".encode(), b"t"]),
